@@ -488,7 +488,8 @@ def theorem_cases(cx, head, cases, tag):
         if thm == "ll_in_container":
             # the diff is one copy of the container with operation=none holding the operations (or empty)
             D = c.D[1]
-            ok_shape = not D or (len(D) == 1 and D[0].sn is A[0].sn and meta(D[0], "operation") == b"none")
+            top = tg.untok(c.s, c.a)[0].sn
+            ok_shape = not D or (len(D) == 1 and D[0].sn is top and meta(D[0], "operation") == b"none")
             impl = core_ops_of_diff(D[0].kids) if D and ok_shape else ([] if ok_shape else ["?shape"])
         else:
             impl = core_ops_of_diff(c.D[1], keyed=(thm == "kl"))
